@@ -73,6 +73,7 @@ inductive Beh where
   | merge (tag : String)                      -- collection → [tag, x₁, …, xₙ]
   | collOf (tag : String) (n : Nat)           -- source of the collection [[tag, p₁…, 0], …, [tag, p₁…, n-1]]
   | fail (cls : String)                       -- raises the processor's own error of class `cls`
+  | echo                                      -- returns its first parameter as it is (null without parameters): falsy results included
   deriving Repr, Inhabited
 
 /-- A piece of a `template:"…{key}…":out` string. -/
@@ -233,6 +234,7 @@ def applyBeh (b : Beh) (declared : List String) (v : Option Val) (ps : List Val)
   | .collOf tag n =>
     .ok (.arr ((List.range n).map (fun i => Val.arr (.atom ("\"" ++ tag ++ "\"") :: (ps ++ [.atom (toString i)])))), [])
   | .fail cls => .error (.proc cls)
+  | .echo => .ok (ps.headD Val.null, [])
 
 def applyWrites (c : Ctx) (ws : List (String × Val)) : Ctx := ws.foldl (fun acc kv => acc.set kv.1 kv.2) c
 
